@@ -2,7 +2,7 @@
 import ast
 
 from ..core.db import AnalysisError, norm_stmt, walk_no_nested
-from ..core.interp import Const, Tup, Unknown, Frame, _Return
+from ..core.interp import Const, Tup, Unknown, Frame, _Return, Slice
 from ..core.norm import Rat, diff, NormError
 from ..domains.normdom import Sym
 from . import polyfam as PF
@@ -488,6 +488,8 @@ def more_rules(run, db):
     class OutArr(Value):
         def __init__(self):
             self.rows = {}
+            self.parts = {}
+            self.lost = False
 
     class Row(Value):
         def __init__(self, arr, j):
@@ -505,11 +507,25 @@ def more_rules(run, db):
     def iterate(v, node):
         if isinstance(v, OutArr):
             return [Row(v, 0), Row(v, 1)]
+        r_ = domw.rat(v) if isinstance(v, Value) and not isinstance(v, (OutArr, Row, Tup)) else None
+        if r_ is not None and r_.key().startswith('zder('):
+            return [domw.func_atom('part', [v, Const(k)]) for k in (0, 1)]        # (d/dr, d/dt) = zernike_nm_der(...)
         return oi(v, node)
 
     def store_subscript(target, idx, val, node):
         if isinstance(target, OutArr) and isinstance(idx, Const) and isinstance(idx.v, int):
             target.rows.setdefault(idx.v, []).append(val)
+            return True
+        if isinstance(target, OutArr) and isinstance(idx, Tup) and len(idx.items) == 2 and all(isinstance(x, Const) and isinstance(x.v, int) for x in idx.items):
+            target.parts.setdefault(idx.items[0].v, {}).setdefault(idx.items[1].v, []).append(val)        # out[j, k] = one of the two derivatives
+            return True
+        if isinstance(target, Row) and isinstance(idx, Const) and isinstance(idx.v, int):
+            target.arr.parts.setdefault(target.j, {}).setdefault(idx.v, []).append(val)
+            return True
+        if isinstance(target, (OutArr, Row)) and not (isinstance(idx, Slice) or (isinstance(idx, Const) and idx.v is Ellipsis)):
+            target.lost = True if isinstance(target, OutArr) else None
+            if isinstance(target, Row):
+                target.arr.lost = True
             return True
         if isinstance(target, Row):
             target.arr.rows.setdefault(target.j, []).append(val)
@@ -529,11 +545,25 @@ def more_rules(run, db):
     ok = len(res) == 1 and isinstance(res[0].value, OutArr)
     detail = ''
     if ok:
-        rows = res[0].value.rows
+        oa = res[0].value
+        rows = oa.rows
+        if oa.lost:
+            raise AnalysisError('zernike_nm_der_seq: a store into the output array is not followed (index neither a row nor a (row, component) pair)')
         for j in (0, 1):
             want = Rat(Rw.func('zder', [Aw('n%d' % j), Aw('m%d' % j), Aw('r'), Aw('t'), Aw('NORM')]))
             got = [domw.rat(v) for v in rows.get(j, [])]
-            if not (len(got) == 1 and got[0] is not None and got[0] == want):
+            parts = oa.parts.get(j, {})
+            if not got and not parts:
+                raise AnalysisError('zernike_nm_der_seq: what is stored in slot %d of the output is not followed' % j)
+            if any(g is None for g in got) or any(domw.rat(v) is None for vs in parts.values() for v in vs):
+                raise AnalysisError('zernike_nm_der_seq: a value stored in slot %d is not followed' % j)
+            if parts and not got:
+                wantp = {k: Rat(Rw.func('part', [want, Rat(Rw.const(k))])) for k in (0, 1)}
+                if not (set(parts) == {0, 1} and all(len(parts[k]) == 1 and domw.rat(parts[k][0]) == wantp[k] for k in (0, 1))):
+                    ok = False
+                    detail = 'slot %d holds the components %s, expected (d/dr, d/dt) of %s' % (j, {k: [domw.rat(v).key() for v in vs] for k, vs in sorted(parts.items())}, want.key())
+                continue
+            if not (len(got) == 1 and not parts and got[0] == want):
                 ok = False
                 detail = 'slot %d holds %s, expected %s' % (j, [g.key() if g is not None else '?' for g in got], want.key())
     run.check(ok, 'C09.id', fz.qual, 'wrapper', 'slot j holds zernike_nm_der(n_j, m_j, r, t, norm=norm)',
